@@ -107,7 +107,7 @@ macro_rules! c03_gamma {
 c03_gamma!(c03_gamma_f64, f64, 1e-3, 1e6, 1e-100, 1e100);
 //@ id: c03_gamma_f32
 //@ prop: C03
-//@ tier: quick
+//@ tier: thorough
 //@ cap: 1500
 //@ funcs: Gamma::<f32>::new; Gamma::<f32>::sample
 //@ bounds: shape in [1e-2, 1e6], scale in [1e-30, 1e30]; first trial
